@@ -58,12 +58,13 @@ type Conn struct {
 	nops   atomic.Int64
 	closed atomic.Bool
 	broken atomic.Bool
+	wdl    atomic.Int64 // write deadline (UnixNano; 0 = none): a write after it fails with a timeout, as on a socket
 	// MaxRead, if > 0, caps the bytes returned by a single Read (short reads).
 	MaxRead int
 	local   addr
 	remote  addr
 	// OnClose is called once when this end is closed.
-	OnClose func()
+	OnClose   func()
 	closeOnce sync.Once
 }
 
@@ -160,6 +161,9 @@ func (c *Conn) Write(p []byte) (int, error) {
 	}
 	if c.broken.Load() {
 		return 0, io.ErrClosedPipe
+	}
+	if d := c.wdl.Load(); d != 0 && time.Now().UnixNano() >= d {
+		return 0, os.ErrDeadlineExceeded
 	}
 	n := len(p)
 	var ferr error
@@ -308,6 +312,11 @@ func (c *Conn) SetWriteDeadline(t time.Time) error {
 	}
 	if c.closed.Load() {
 		return net.ErrClosed
+	}
+	if t.IsZero() {
+		c.wdl.Store(0)
+	} else {
+		c.wdl.Store(t.UnixNano())
 	}
 	return nil
 }
